@@ -509,6 +509,13 @@ pub(crate) fn load_defs(ctx: &mut Context, defs: Defs) -> Vec<String> {
                         unique.insert(&*prop.name);
                         unique.insert(&*prop.input_name);
                         unique.insert(&*prop.output_name);
+                        // `property of substance` divides by the input.
+                        if (&output / &input).is_none() {
+                            return Err(format!(
+                                "Property {} has an input of zero",
+                                prop.name
+                            ));
+                        }
                         let ratio = match &input / &output {
                             Some(ratio) => ratio,
                             None => {
